@@ -11,6 +11,8 @@ import (
 	"strings"
 
 	"fortio.org/terminal"
+	"grol.io/grol/eval"
+	"grol.io/grol/extensions"
 	"grol.io/grol/repl"
 	"grol.io/grol/trie"
 	"verifharness/common"
@@ -165,9 +167,53 @@ func c20History(c *Ctx, ops []string) {
 	cb := ac.AutoComplete()
 	set := map[string]bool{}
 	var wparts []string
+	var st *eval.State
+	addWord := func(w string) {
+		if !set[w] {
+			set[w] = true
+			wparts = append(wparts, Hx([]byte(w)))
+		}
+	}
 	for i, op := range ops {
 		c.Eval()
 		arg := op[1:]
+		if op[0] == 'D' {
+			// a top-level definition evaluated by a session whose names are recorded in this index (what the interactive
+			// REPL does: State.RegisterTrie, then every new global is recorded as name and name+"(" / name+" ").
+			// arg = "v"+name (a variable) or "f"+name (a function)
+			if st == nil {
+				st = eval.NewState()
+				_, before := ac.Trie.PrefixAll("")
+				st.RegisterTrie(ac.Trie)
+				_, after := ac.Trie.PrefixAll("")
+				had := map[string]bool{}
+				for _, w := range before {
+					had[w] = true
+				}
+				for _, w := range after { // the globals of a fresh state: recorded by RegisterTrie itself
+					if !had[w] {
+						addWord(w)
+					}
+				}
+				for w := range set { // nothing that was there may have gone
+					if !ac.Trie.Contains(w) {
+						c.Fail("contains-mismatch:history:after-register", "HIST "+histKey(ops[:i+1]), fmt.Sprintf("Contains(%q)=false after RegisterTrie", w))
+					}
+				}
+			}
+			name := arg[1:]
+			src, suffix := name+" = 1", " "
+			if arg[0] == 'f' {
+				src, suffix = "func "+name+"(n) {n}", "("
+			}
+			if _, err := eval.EvalString(st, src, false); err != nil {
+				c.Count("history-definition-rejected")
+				continue
+			}
+			addWord(name + suffix)
+			addWord(name)
+			continue
+		}
 		if op[0] == 'I' {
 			ac.Trie.Insert(arg)
 			if len(arg) > 0 {
@@ -334,6 +380,63 @@ func runC20(c *Ctx) {
 		}
 	}
 	hrec(nil)
+	// sessions: words inserted directly (as the REPL inserts keywords, builtins and "history") and names defined by evaluated
+	// inputs (recorded through State.RegisterTrie), each extending or extended by the other kind, in both orders
+	_ = extensions.Init(nil)
+	plain := []string{"history", "hist", "h", "help ", "zed", "zedA", "q(", "q"}
+	names := []string{"historySize", "his", "hi", "history2", "zedAlpha", "ze", "qq", "zedA", "hel"}
+	for _, pw := range plain {
+		for _, nm := range names {
+			for _, kind := range []string{"v", "f"} {
+				qs := []string{"T", "Th", "Thist", "Thistory", "T" + nm, "T" + pw, "Tz", "Tq"}
+				c20History(c, append([]string{"I" + pw, "D" + kind + nm}, qs...))
+				c20History(c, append([]string{"D" + kind + nm, "I" + pw}, qs...))
+				c20History(c, append([]string{"I" + pw, "Dva1", "D" + kind + nm, "I" + pw + "x"}, qs...))
+			}
+		}
+	}
+	sn := 150
+	if c.Thorough() {
+		sn = 6000
+	}
+	for i := 0; i < sn; i++ {
+		var ops []string
+		pool := append(append([]string{}, plain...), names...)
+		for k := 0; k < 4+c.R.Intn(8); k++ {
+			w := pool[c.R.Intn(len(pool))]
+			switch c.R.Intn(4) {
+			case 0:
+				ops = append(ops, "I"+w)
+			case 1:
+				id := strings.TrimRight(w, " (")
+				ops = append(ops, "D"+[]string{"v", "f"}[c.R.Intn(2)]+id+[]string{"", "Size", "2", "_x"}[c.R.Intn(4)])
+			default:
+				ops = append(ops, "T"+w[:c.R.Intn(len(w)+1)])
+			}
+		}
+		c20History(c, append(ops, "T", "Th", "Tz"))
+	}
+	// many candidates: dictionaries of 99..260 words under one prefix (all under the first child of a node plus a sibling after
+	// it, a sibling before it, deep chains), asked through the completion callback
+	for _, n := range []int{99, 100, 101, 102, 121, 260} {
+		for shape := 0; shape < 4; shape++ {
+			var ops []string
+			for k := 0; k < n; k++ {
+				switch shape {
+				case 0:
+					ops = append(ops, fmt.Sprintf("Izq0%03d", k))
+				case 1:
+					ops = append(ops, fmt.Sprintf("Izq%03d", k))
+				case 2:
+					ops = append(ops, "Izq9"+strings.Repeat("a", k%40)+fmt.Sprintf("%d", k))
+				default:
+					ops = append(ops, fmt.Sprintf("Dvzq0n%d", k))
+				}
+			}
+			ops = append(ops, "Izq1", "Tz", "Tzq", "Tzq0", "T", "Izp", "Tz", "Izq00", "Tzq0", "Tzq9", "Tzq1")
+			c20History(c, ops)
+		}
+	}
 	hn := 600
 	if c.Thorough() {
 		hn = 30000
